@@ -61,7 +61,8 @@ def main():
         dst = os.path.join(VERIF, "seeded", name)
         os.makedirs(dst, exist_ok=True)
         for f in ("patch.diff", "demo.py"):
-            shutil.copy(os.path.join(src, f), os.path.join(dst, f))
+            if os.path.realpath(src) != os.path.realpath(dst):
+                shutil.copy(os.path.join(src, f), os.path.join(dst, f))
         out["ran"] = "harness.seedrun %s (scratch worktree of /repo HEAD %s, patch applied, checks run with VERIF_REPO)" % (
             " ".join(checks), sh("git -C /repo rev-parse --short HEAD").stdout.strip())
         json.dump(out, open(os.path.join(dst, "meta.json"), "w"), indent=1)
